@@ -731,7 +731,8 @@ class InterpMixin:
         if t is ast.Is:
             return self.py_is(a, b)
         if t is ast.IsNot:
-            return not self.py_is(a, b)
+            r = self.py_is(a, b)
+            return sym_not(r) if isinstance(r, SymBool) else (not r)
         if t is ast.In:
             return self.contains(b, a)
         if t is ast.NotIn:
@@ -757,6 +758,16 @@ class InterpMixin:
             raise PyRaise(PyExc(TypeError, ex.args))
 
     def py_is(self, a, b):
+        if isinstance(a, SymOpt) or isinstance(b, SymOpt):
+            if isinstance(b, SymOpt):
+                a, b = b, a
+            if b is None:
+                return wrap(a.is_none)
+            return self.py_is(self.concretize(a), b)
+        if isinstance(a, SymEnum) or isinstance(b, SymEnum):
+            if a is None or b is None:
+                return False
+            return self.py_eq(a, b)
         if isinstance(a, Sym) or isinstance(b, Sym):
             if a is None or b is None:
                 return False
@@ -771,6 +782,18 @@ class InterpMixin:
         return a is b
 
     def py_eq(self, a, b):
+        if isinstance(a, SymOpt) or isinstance(b, SymOpt):
+            return self.py_eq(self.concretize(a), self.concretize(b))
+        if isinstance(a, SymEnum) or isinstance(b, SymEnum):
+            if isinstance(b, SymEnum) and not isinstance(a, SymEnum):
+                a, b = b, a
+            if isinstance(b, SymEnum):
+                return wrap(a.idx == b.idx) if a.cls is b.cls else False
+            if isinstance(b, EnumMember) and b.cls is a.cls:
+                return wrap(a.idx == list(a.cls.members).index(b._name))
+            if isinstance(b, str) and b in a.cls.members:
+                return wrap(a.idx == list(a.cls.members).index(b))
+            return False
         if isinstance(a, SObj):
             f, owner = a.cls.lookup("__eq__")
             if f is not None:
@@ -1096,6 +1119,8 @@ class InterpMixin:
                     raise Unsupported("negative index into symbolic sequence")
                 raise PyRaise(PyExc(IndexError, ("index out of range",)))
             return c.elem(to_term(k))
+        if isinstance(k, (SymEnum, SymOpt)):
+            k = self.concretize(k)
         if isinstance(c, dict):
             if isinstance(k, Sym):
                 for kk in c:
@@ -1145,6 +1170,8 @@ class InterpMixin:
             c.val = z3.Store(c.val, kt, vt)
             self.event("map-store", c.name)
             return
+        if isinstance(k, (SymEnum, SymOpt)):
+            k = self.concretize(k)
         if isinstance(c, dict):
             if isinstance(k, Sym):
                 raise Unsupported("symbolic key stored into concrete dict")
